@@ -28,6 +28,8 @@ func NondetTime(tag string) time.Time            { sym(); return time.Time{} }
 func And(a, b bool) bool                         { sym(); return false }
 func Or(a, b bool) bool                          { sym(); return false }
 func Implies(a, b bool) bool                     { sym(); return false }
+// IsLowerASCII: s is pure ASCII without upper-case letters.
+func IsLowerASCII(s string) bool                 { sym(); return false }
 func Assume(b bool)                              { sym() }
 func Assert(b bool, id string)                   { sym() }
 func Cover(id string)                            { sym() }
@@ -40,8 +42,18 @@ func Codec() codec.BinaryCodec                                   { sym(); return
 func Subspace(name string) paramtypes.Subspace                   { sym(); return paramtypes.Subspace{} }
 func Ctx(height int64, t time.Time, gas uint64) sdk.Context      { sym(); return sdk.Context{} }
 func OpenStore(name string)                                      { sym() }
+// AssumeNoKeysWithPrefix restricts the open pre-state: no record exists under the key prefix (a stated bound).
+func AssumeNoKeysWithPrefix(store, prefix string)                { sym() }
 func SetSliceBound(n int)                                        { sym() }
 func SetSliceBoundFor(field string, n int)                       { sym() }
+// WFKey declares that open-world records of the type sit at the key built from their own fields
+// (parts: literal text, "$Field", "hex:$Field", "dec:$Field"); WFAddr that the fields hold valid account strings.
+func WFKey(store, typ string, parts ...string)                   { sym() }
+func WFAddr(typ string, fields ...string)                        { sym() }
+// WF clauses: nocontain:Field:text, oneof:Field:a,b, lower:Field, nonneg:Field, pos:Field, coin:Field
+func WF(typ string, clauses ...string)                           { sym() }
+// IsModuleAddr: the address belongs to some module account (module accounts never sign transactions).
+func IsModuleAddr(addr sdk.AccAddress) bool                      { sym(); return false }
 func RandChoiceMode(on bool)                                     { sym() }
 func ModuleAddr(name string) sdk.AccAddress                      { sym(); return nil }
 func Blocked(addr sdk.AccAddress) bool                           { sym(); return false }
